@@ -36,6 +36,7 @@ mod mon_c18;
 mod mon_c19;
 mod mon_c20;
 mod mon_kamino;
+mod mon_drift;
 mod mon_venue;
 mod rng;
 mod scen;
@@ -146,7 +147,7 @@ fn main() {
             let n: usize = args[4].parse().unwrap();
             let mut rng = Rng::new(seed ^ 0x5EED_0000 ^ prop.bytes().fold(0u64, |a, b| a.wrapping_mul(131).wrapping_add(b as u64)));
             let mut rep = mon::Report::default();
-            let known = ["IX", "C02", "C03", "C08", "BR", "GATE", "LIQ", "TXS", "BKR", "XFER", "VEN", "ORA", "C12", "ADM", "C13", "C14", "C15", "C17", "C18", "C19", "C20", "KAM"];
+            let known = ["IX", "C02", "C03", "C08", "BR", "GATE", "LIQ", "TXS", "BKR", "XFER", "VEN", "ORA", "C12", "ADM", "C13", "C14", "C15", "C17", "C18", "C19", "C20", "KAM", "DRF"];
             if !known.contains(&prop) {
                 eprintln!("no monitor for {}", prop);
                 std::process::exit(2);
@@ -178,6 +179,7 @@ fn main() {
                 "C19" => mon_c19::run(&mut rng, budget, &mut rep),
                 "C20" => mon_c20::run(&mut rng, budget, &mut rep),
                 "KAM" => mon_kamino::run(&mut rng, budget, &mut rep),
+                "DRF" => mon_drift::run(&mut rng, budget, &mut rep),
                     _ => unreachable!(),
                 }));
                 if r.is_ok() {
